@@ -20,6 +20,10 @@ fn main() {
         std::process::exit(2);
     }
     pipe::install_quiet_panic_hook();
+    if args[1] == "debug-corpus" {
+        debug_time_corpus();
+        return;
+    }
     let tier = match args[2].as_str() {
         "quick" => Tier::Quick,
         "thorough" => Tier::Thorough,
@@ -30,6 +34,7 @@ fn main() {
     };
     let rep = match args[1].as_str() {
         "C02" => props::c02::run(tier),
+        "C03" => props::c03::run(tier),
         "C05" => props::c05::run(tier),
         other => {
             eprintln!("unknown check {other}");
@@ -37,4 +42,15 @@ fn main() {
         }
     };
     std::process::exit(rep.finish());
+}
+
+#[allow(dead_code)]
+pub fn debug_time_corpus() {
+    for g in corpus::grammars() {
+        let t = std::time::Instant::now();
+        let mut acc = props::c02::Acc::default();
+        props::c02::work(&mut acc, g.clone(), &[pipe::Shell::Bash]);
+        let text = ast::print_grammar(&g);
+        eprintln!("{:.3}s states={} {}", t.elapsed().as_secs_f64(), acc.states, &text[..text.len().min(50)].replace('\n', " "));
+    }
 }
